@@ -117,6 +117,32 @@ class GReg:
     def __pyvc_truth__(self, eng):
         return Sym(self._sz(eng) > 0)
 
+    def __pyvc_attr__(self, eng, name):
+        if name == 'get':
+            # dict.get(key, default=None): the registered handler, else the default — the same lookup as `key in reg` + `reg[key]`
+            def get(e, a, k):
+                key = a[0]
+                default = a[1] if len(a) > 1 else k.get('default')
+                if not isinstance(key, GId):
+                    raise Unsupported('registry key')
+                if self.size is not None:
+                    e.assume(z3.Implies(Reg(key.seq), self.size >= 1))
+                if e.fork(Reg(key.seq)):
+                    return GHandler(key.seq)
+                return default
+            return _Fn(get)
+        raise Unsupported(f'registry.{name}')
+
+
+class _Fn:
+    __pyvc_symbolic__ = True
+
+    def __init__(self, f):
+        self.f = f
+
+    def __pyvc_call__(self, eng, args, kwargs):
+        return self.f(eng, args, kwargs)
+
 
 class GHandler:
     __pyvc_symbolic__ = True
